@@ -12,6 +12,15 @@ theorem pres_noCl {s s' : St} {a : Act} (hI : Inv s) (h : step .repaired s a = s
   | fire t0 =>
     simp only [step] at h
     (repeat' (split at h)) <;> (try cases h) <;> (simp only [St.setPc, St.setObj]; first | (have i_noCl := hI.noCl; have i_refs := hI.refs; grind [preSpawn, PC.ref, holdsStore, Obj.fresh]) | (have i_noCl := hI.noCl; have i_refs := hI.refs; have i_lockA := hI.lockA; grind (instances := 4000) [preSpawn, PC.ref, holdsStore, Obj.fresh]))
+  | corrupt d =>
+    simp only [step] at h
+    (repeat' (split at h)) <;> (try cases h) <;> (simp only []; first | (have i_noCl := hI.noCl; have i_refs := hI.refs; grind [preSpawn, PC.ref, holdsStore, Obj.fresh]) | (have i_noCl := hI.noCl; have i_refs := hI.refs; have i_lockA := hI.lockA; grind (instances := 4000) [preSpawn, PC.ref, holdsStore, Obj.fresh]))
+  | block d =>
+    simp only [step] at h
+    (repeat' (split at h)) <;> (try cases h) <;> (simp only []; first | (have i_noCl := hI.noCl; have i_refs := hI.refs; grind [preSpawn, PC.ref, holdsStore, Obj.fresh]) | (have i_noCl := hI.noCl; have i_refs := hI.refs; have i_lockA := hI.lockA; grind (instances := 4000) [preSpawn, PC.ref, holdsStore, Obj.fresh]))
+  | repair d =>
+    simp only [step] at h
+    (repeat' (split at h)) <;> (try cases h) <;> (simp only []; first | (have i_noCl := hI.noCl; have i_refs := hI.refs; grind [preSpawn, PC.ref, holdsStore, Obj.fresh]) | (have i_noCl := hI.noCl; have i_refs := hI.refs; have i_lockA := hI.lockA; grind (instances := 4000) [preSpawn, PC.ref, holdsStore, Obj.fresh]))
   | run t0 =>
     simp only [step] at h
     split at h
